@@ -229,10 +229,15 @@ def ua_wait(ctx):
                     notdone = t['otherwise'] if neg else dict((v, tb) for v, tb in t['targets']).get('0')
                     tests.append((bb, 'flag', done, notdone))
             else:
+                zero, nonzero = dict((v, tb) for v, tb in t['targets']).get('0'), t['otherwise']
+                neg = txt.startswith('Not(')
+                if neg:
+                    txt = txt[4:]
+                    zero, nonzero = nonzero, zero
                 if txt.startswith('is_none(') and 'lock(' in txt:
-                    tests.append((bb, 'is_none', dict((v, tb) for v, tb in t['targets']).get('0'), t['otherwise']))
+                    tests.append((bb, 'is_none', zero, nonzero))
                 elif txt.startswith('is_some(') and 'lock(' in txt:
-                    tests.append((bb, 'is_some', t['otherwise'], dict((v, tb) for v, tb in t['targets']).get('0')))
+                    tests.append((bb, 'is_some', nonzero, zero))
         if not tests:
             out.append(bad(R, key, 'no completion test found after the lifetime-erased job was queued: the function can return while the queue still holds a pointer into its frame', fn=name))
             continue
